@@ -59,6 +59,7 @@ def _gen_main(rng, tier):
 def gen(rng, tier):
     yield from _gen_main(rng, tier)
     yield from _grid(rng, tier)
+    yield from _huge(rng, tier)
     yield from _prim.arith(rng, tier)
 
 
@@ -75,3 +76,16 @@ def _grid(rng, tier):
                 yield f"carrying_add {s}{cfg} {hx(a)} {hx(b)} 1", "edge-grid"
                 yield f"borrowing_sub {s}{cfg} {hx(a)} {hx(b)} 1", "edge-grid"
                 yield f"midpoint {s}{cfg} dbg {hx(a)} {hx(b)}", "edge-grid"
+
+
+def _huge(rng, tier):
+    for cfg in HUGE_CFGS:
+        vals = huge_values(rng, cfg)
+        k = 0
+        for a in vals:
+            for b in vals[:4]:
+                s = "ui"[k % 2]
+                op = ["overflowing_add", "overflowing_sub", "saturating_add", "checked_sub", "abs_diff"][k % 5]
+                k += 1
+                yield f"{op} {s}{cfg} {hx(a)} {hx(b)}", "huge"
+            yield f"overflowing_neg i{cfg} {hx(a)}", "huge"
